@@ -57,7 +57,7 @@ func vPadPath(store *SessionStore, req *http.Request, name string) int {
 }
 
 // (a) every emitted part fits, parts are named N / N_0.., values concatenate to the signed value
-// verif: unwind=12 havoc=encryption.SignedValue also=C18 steps=2000000 guess
+// verif: unwind=12 havoc=encryption.SignedValue also=C18,C09 steps=2000000 guess
 func vh_C10_split() {
 	nk := 2
 	if verifThorough() {
@@ -90,6 +90,7 @@ func vh_C10_split() {
 		} else {
 			verifAssert("C10.split.part-name", c.Name == splitCookieName(name, i))
 		}
+		verifAssert("C09.split.max-age-is-the-configured-lifetime", c.MaxAge == int(store.Cookie.Expire/time.Second))
 		verifAssert("C18.split.attributes", c.Path == store.Cookie.Path && c.Secure && c.HttpOnly && c.SameSite == http.SameSiteLaxMode && c.Domain == "" && c.MaxAge == int(store.Cookie.Expire/time.Second))
 		joined += c.Value
 	}
